@@ -56,11 +56,14 @@ def _effects(rnd, nin) -> list:
     return out
 
 
-def gen_tree(rnd: random.Random, depth: int, nin: int, counter: list, kind="ROOT") -> Node:
+def gen_tree(rnd: random.Random, depth: int, nin: int, counter: list, kind="ROOT", static: bool = False) -> Node:
     addr = TARGET if kind == "ROOT" else NODE_BASE + counter[0]
     counter[0] += 1
     vk = rnd.random()
     value = ("c", 0) if vk < 0.45 else (("in", rnd.randrange(nin)) if vk < 0.85 else ("c", rnd.choice([1, 2, 10**18])))
+    if static and kind in ("CALL", "CALLCODE"):
+        # a value-bearing CALL inside a static frame is a recorded finding (probe static-call-with-value)
+        value = ("c", 0)
     n = Node(addr, kind, value, _effects(rnd, nin), _effects(rnd, nin), rnd.choice(OUTCOMES) if kind != "ROOT" else "return")
     if kind in ("CREATE", "CREATE2"):
         n.outcome = rnd.choice(["return", "return", "return", "revert", "invalid"])
@@ -70,7 +73,18 @@ def gen_tree(rnd: random.Random, depth: int, nin: int, counter: list, kind="ROOT
         nk = rnd.choice([1, 1, 2]) if kind == "ROOT" else rnd.choice([0, 1, 1, 2])
         for _ in range(nk):
             ck = rnd.choice(CALL_KINDS + ["CALL", "CALL", "CREATE", "CREATE2"])
-            n.children.append(gen_tree(rnd, depth - 1, nin, counter, ck))
+            child = gen_tree(rnd, depth - 1, nin, counter, ck, static or kind == "STATICCALL")
+            n.children.append(child)
+            if ck == "CREATE2" and rnd.random() < 0.4:
+                # the same CREATE2 (salt, init code) twice: the first attempt fails inside the init code
+                # (no value sent), the second one must then succeed - a failed creation leaves nothing behind
+                import copy as _copy
+
+                child.outcome = "needs_value"
+                child.value = ("c", 0)
+                twin = _copy.copy(child)
+                twin.value = ("c", 1)
+                n.children.append(twin)
     return n
 
 
@@ -115,7 +129,11 @@ def init_code(n: Node) -> bytes:
     body = []
     for e in n.pre:
         body += _effect_code(e)
-    if n.outcome == "revert":
+    if n.outcome == "needs_value":
+        rl = len(RUNTIME_CREATED)
+        body += ["CALLVALUE", ("PUSHL", "go"), "JUMPI", ("PUSH", 0), ("PUSH", 0), "REVERT", ("LABEL", "go"),
+                 ("PUSHN", 2, rl), ("PUSHL", "rt"), ("PUSH", 0), "CODECOPY", ("PUSHN", 2, rl), ("PUSH", 0), "RETURN"]
+    elif n.outcome == "revert":
         body += [("PUSH", 0xBAD), ("PUSH", 0), "MSTORE", ("PUSH", 32), ("PUSH", 0), "REVERT"]
     elif n.outcome == "invalid":
         body += ["INVALID"]
@@ -200,6 +218,12 @@ def fam_calls(rnd: random.Random, ninputs: int = 10, depth: int | None = None):
     off = root.retlen
     for x in nodes:
         epi += [("PUSH", x.addr), "BALANCE", ("PUSHN", 2, off), "MSTORE"]
+        off += 32
+    # accounts created by CREATE get consecutive addresses: after the whole tree has run, exactly those whose
+    # creating frames (and all their ancestors) succeeded may have code
+    ncreate = sum(1 for x in _all_nodes(root) if x.kind == "CREATE")
+    for k in range(ncreate):
+        epi += [("PUSH", 0xAAAA0002 + k), "EXTCODESIZE", ("PUSHN", 2, off), "MSTORE"]
         off += 32
     root_total = off
     root.outcome = "_epilogue"
